@@ -60,7 +60,24 @@ func VerifC17Expiry() {
 		w.step()
 	}
 	zzverif.AdvanceClock()
+	if zzverif.Param("expiryfaults", 0) == 1 {
+		// one delete of the expiry pass fails with a plain storage error (a transient engine fault)
+		at := zzverif.Choose("expiryFaultAt", 5) - 1
+		n := 0
+		w.s.FaultAt = func(kind string, _ int) zzmodel.Fault {
+			if kind == "commit" {
+				return zzmodel.FaultNone
+			}
+			n++
+			if n-1 == at {
+				zzverif.Cover("expiry-delete-failed")
+				return zzmodel.FaultErr
+			}
+			return zzmodel.FaultNone
+		}
+	}
 	ok2, _ := w.compact(0)
+	w.s.FaultAt = nil
 	zzverif.Assert(ok2, "second compaction accepted")
 	zzverif.WaitIdle()
 	evs, _ := vDrainEvents(ch)
